@@ -290,6 +290,15 @@ Proof.
   apply Ho in H1. apply Ho in H2. fold s in H1, H2. congruence.
 Qed.
 
+(** whoever holds the lock can always take its next step: no path through IsDuplicate or
+    cleanOut keeps the mutex (in ANY state, reachable or not) *)
+Theorem holder_never_blocked w s t :
+  holds (thr s t) = true -> step w s (LThr t) <> None.
+Proof.
+  unfold step. destruct (thr s t) as [todo p res|p]; destruct p as [| | |]; simpl; try discriminate.
+  destruct dup; discriminate.
+Qed.
+
 Theorem trace_accepted w t0 roles sched :
   mon_ok w t0 (rev (trace (run w (init t0 roles) sched))) = true.
 Proof.
